@@ -119,8 +119,14 @@ class Scratch:
         with open(inp, "w") as f:
             json.dump(payload, f)
         cmd = [IMPL_PY, os.path.join(VERIF, "harness", "impl", script + ".py"), inp, outp]
+        # a private system temporary directory per invocation: concurrent invocations must not see each
+        # other's temporary files (the C17 listings would blame a call for its neighbour's files)
+        own_tmp = os.path.join(wd, "systmp")
+        os.mkdir(own_tmp)
+        env = self.env(hashseed, extra_env)
+        env["TMPDIR"] = own_tmp
         try:
-            p = subprocess.Popen(cmd, cwd=wd, env=self.env(hashseed, extra_env),
+            p = subprocess.Popen(cmd, cwd=wd, env=env,
                                  stdout=subprocess.PIPE, stderr=subprocess.STDOUT,
                                  start_new_session=True)
             try:
